@@ -522,6 +522,7 @@ fn do_call<'db>(db: &'db dyn Vd, ctx: &Ctx, f: &mut Frame<'db>, node: u8, arg: S
     let n = &ctx.prog.nodes[node as usize];
     let a = (src_val(arg, f.acc) % n.nargs as u32) as u8;
     let out = call_node(db, node, a);
+    ctx.push(Rec::Used(LKey::Node(node, a), f.rec.tid));
     f.rec.calls.push(LKey::Node(node, a));
     f.any_read = true;
     f.ents.extend(out.ents.iter().copied());
@@ -583,14 +584,9 @@ fn run_ops<'db>(db: &'db dyn Vd, ctx: &Ctx, f: &mut Frame<'db>, ops: &[Op]) {
                 let id_v = src_val(*ident, f.acc) % VMOD;
                 let e = Ent::new(db, FV(id_v), FV(f.acc), FV(f.acc));
                 let occ = f.occ.entry(id_v).or_insert(0);
-                f.rec.created.push(Created {
-                    ident: id_v,
-                    occ: *occ,
-                    id: e.as_id().as_bits(),
-                    tv: f.acc,
-                    tn: f.acc,
-                    after_read: f.any_read,
-                });
+                let made = Created { ident: id_v, occ: *occ, id: e.as_id().as_bits(), tv: f.acc, tn: f.acc, after_read: f.any_read };
+                ctx.push(Rec::Made(f.rec.key, made.clone()));
+                f.rec.created.push(made);
                 *occ += 1;
                 f.mine.push(f.ents.len());
                 f.ents.push(e);
@@ -837,6 +833,7 @@ impl World {
     pub fn get_on(&self, db: &VDb, node: u8, arg: u8) -> Result<Got, Pan> {
         catch_unwind(AssertUnwindSafe(|| {
             let out = call_node(db, node, arg);
+            db.ctx().push(Rec::Used(LKey::Node(node, arg % db.ctx().prog.nodes[node as usize].nargs), fault::tid()));
             let prev = fault::pause();
             let g = Got {
                 v: out.v,
